@@ -101,21 +101,27 @@ package protocol
 //@ prop C05
 //@ check bounds alloc
 //@ alloc-limit len(buf) + 4096
+//@ ensures len(buf) >= 44 && len(buf) >= 43 + ite(buf[8] == 1, 4, ite(buf[8] == 4, 16, 0)) ==> err == nil && result != nil && result.RequestID == be64(buf, 0) && result.BoundAddrType == buf[8] && len(result.BoundAddr) == ite(buf[8] == 1, 4, ite(buf[8] == 4, 16, 0)) && result.BoundPort == be16(buf, 9 + len(result.BoundAddr))
+//@ ensures err == nil ==> forall i in 0..len(result.BoundAddr): result.BoundAddr[i] == buf[9 + i]
+//@ ensures err == nil ==> forall i in 0..32: result.EphemeralPubKey[i] == buf[11 + len(result.BoundAddr) + i]
 
 //@ func DecodeStreamOpenErr
 //@ prop C05
 //@ check bounds alloc
 //@ alloc-limit len(buf) + 4096
+//@ ensures len(buf) >= 11 && len(buf) >= 11 + buf[10] ==> err == nil && result != nil && result.RequestID == be64(buf, 0) && result.ErrorCode == be16(buf, 8) && len(result.Message) == buf[10] && forall i in 0..len(result.Message): result.Message[i] == buf[11 + i]
 
 //@ func DecodeStreamReset
 //@ prop C05
 //@ check bounds alloc
 //@ alloc-limit len(buf) + 4096
+//@ ensures len(buf) >= 2 ==> err == nil && result != nil && result.ErrorCode == be16(buf, 0)
 
 //@ func DecodeKeepalive
 //@ prop C05
 //@ check bounds alloc
 //@ alloc-limit len(buf) + 4096
+//@ ensures len(buf) >= 8 ==> err == nil && result != nil && result.Timestamp == be64(buf, 0)
 
 //@ func DecodeDomainPrefix
 //@ prop C05
@@ -265,7 +271,7 @@ package protocol
 
 //@ func newBufferReader
 //@ prop C05
-//@ ensures result != nil && result.buf == buf && result.offset == 0 && result.err == nil && !old(allocated(result))
+//@ ensures result != nil && result.buf == buf && result.offset == 0 && result.err == nil && fresh(result)
 
 //@ func (*bufferReader).remaining
 //@ prop C05
@@ -377,3 +383,226 @@ package protocol
 //@ func prefixLength
 //@ prop C05
 //@ ensures result >= 0 && result <= 256
+
+// ---- C05: the unchecked writer. Precondition: room for the value; effect: exactly the value's bytes are
+// written at the old offset, every other byte of the buffer is unchanged, the offset advances by the count. ----
+
+//@ func newBufferWriter
+//@ prop C05
+//@ requires size >= 0
+//@ ensures result != nil && len(result.buf) == size && cap(result.buf) == size && offset(result.buf) == 0 && result.offset == 0 && fresh(result) && fresh(result.buf) && base(result.buf) != 0
+
+//@ func (*bufferWriter).bytes
+//@ prop C05
+//@ check bounds
+//@ requires 0 <= w.offset && w.offset <= len(w.buf)
+//@ ensures len(result) == w.offset && base(result) == base(w.buf) && offset(result) == offset(w.buf)
+
+//@ func (*bufferWriter).writeUint8
+//@ prop C05
+//@ check bounds
+//@ requires 0 <= w.offset && w.offset + 1 <= len(w.buf)
+//@ modifies w.offset, contents(w.buf)
+//@ ensures w.offset == old(w.offset) + 1 && w.buf[old(w.offset)] == v
+//@ ensures forall i in 0..len(w.buf): (i < old(w.offset) || i >= old(w.offset) + 1) ==> w.buf[i] == old(w.buf[i])
+
+//@ func (*bufferWriter).writeUint16
+//@ prop C05
+//@ check bounds
+//@ requires 0 <= w.offset && w.offset + 2 <= len(w.buf)
+//@ modifies w.offset, contents(w.buf)
+//@ ensures w.offset == old(w.offset) + 2 && be16(w.buf, old(w.offset)) == v
+//@ ensures forall i in 0..len(w.buf): (i < old(w.offset) || i >= old(w.offset) + 2) ==> w.buf[i] == old(w.buf[i])
+
+//@ func (*bufferWriter).writeUint32
+//@ prop C05
+//@ check bounds
+//@ requires 0 <= w.offset && w.offset + 4 <= len(w.buf)
+//@ modifies w.offset, contents(w.buf)
+//@ ensures w.offset == old(w.offset) + 4 && be32(w.buf, old(w.offset)) == v
+//@ ensures forall i in 0..len(w.buf): (i < old(w.offset) || i >= old(w.offset) + 4) ==> w.buf[i] == old(w.buf[i])
+
+//@ func (*bufferWriter).writeUint64
+//@ prop C05
+//@ check bounds
+//@ requires 0 <= w.offset && w.offset + 8 <= len(w.buf)
+//@ modifies w.offset, contents(w.buf)
+//@ ensures w.offset == old(w.offset) + 8 && be64(w.buf, old(w.offset)) == v
+//@ ensures forall i in 0..len(w.buf): (i < old(w.offset) || i >= old(w.offset) + 8) ==> w.buf[i] == old(w.buf[i])
+
+//@ func (*bufferWriter).writeBool
+//@ prop C05
+//@ check bounds
+//@ requires 0 <= w.offset && w.offset + 1 <= len(w.buf)
+//@ modifies w.offset, contents(w.buf)
+//@ ensures w.offset == old(w.offset) + 1 && w.buf[old(w.offset)] == ite(v, 1, 0)
+//@ ensures forall i in 0..len(w.buf): (i < old(w.offset) || i >= old(w.offset) + 1) ==> w.buf[i] == old(w.buf[i])
+
+//@ func (*bufferWriter).writeBytes
+//@ prop C05
+//@ check bounds
+//@ requires 0 <= w.offset && w.offset + len(data) <= len(w.buf) && base(data) != base(w.buf)
+//@ modifies w.offset, contents(w.buf)
+//@ ensures w.offset == old(w.offset) + len(data) && forall i in 0..len(data): w.buf[old(w.offset) + i] == data[i]
+//@ ensures forall i in 0..len(w.buf): (i < old(w.offset) || i >= old(w.offset) + len(data)) ==> w.buf[i] == old(w.buf[i])
+
+//@ func (*bufferWriter).writeString
+//@ prop C05
+//@ check bounds
+//@ requires 0 <= w.offset && w.offset + 1 + len(s) <= len(w.buf) && len(s) <= 255
+//@ modifies w.offset, contents(w.buf)
+//@ ensures w.offset == old(w.offset) + 1 + len(s) && w.buf[old(w.offset)] == len(s) && forall i in 0..len(s): w.buf[old(w.offset) + 1 + i] == s[i]
+//@ ensures forall i in 0..len(w.buf): (i < old(w.offset) || i >= old(w.offset) + 1 + len(s)) ==> w.buf[i] == old(w.buf[i])
+
+//@ func (*bufferWriter).writeAgentIDs
+//@ prop C05
+//@ check bounds
+//@ requires 0 <= w.offset && w.offset + 1 + 16 * len(ids) <= len(w.buf) && len(ids) <= 255
+//@ modifies w.offset, contents(w.buf)
+//@ loop 0 invariant -1 <= rangeindex && rangeindex < len(ids) && w.offset == old(w.offset) + 1 + 16 * (rangeindex + 1) && w.buf[old(w.offset)] == len(ids) && forall i in 0..len(w.buf): (i < old(w.offset) || i >= old(w.offset) + 1 + 16 * len(ids)) ==> w.buf[i] == old(w.buf[i])
+//@ ensures w.offset == old(w.offset) + 1 + 16 * len(ids) && w.buf[old(w.offset)] == len(ids)
+//@ ensures forall i in 0..len(w.buf): (i < old(w.offset) || i >= old(w.offset) + 1 + 16 * len(ids)) ==> w.buf[i] == old(w.buf[i])
+
+// ---- C05: no encoder panics or writes outside its buffer (size computations are exact), given the stated wire
+// limits. Not under contract (two-pass size/emit loops over nested lists): PeerHello, RouteAdvertise,
+// RouteWithdraw, NodeInfo, NodeInfoAdvertise and QueuedState encoders. ----
+
+//@ func (*StreamOpen).Encode
+//@ prop C05
+//@ check bounds
+//@ requires len(s.RemainingPath) <= 255
+
+//@ func (*StreamOpenAck).Encode
+//@ prop C05
+//@ check bounds
+//@ ensures len(result) == 43 + len(s.BoundAddr) && be64(result, 0) == s.RequestID && result[8] == s.BoundAddrType && be16(result, 9 + len(s.BoundAddr)) == s.BoundPort
+//@ ensures forall i in 0..len(s.BoundAddr): result[9 + i] == s.BoundAddr[i]
+//@ ensures forall i in 0..32: result[11 + len(s.BoundAddr) + i] == s.EphemeralPubKey[i]
+
+//@ func (*StreamOpenErr).Encode
+//@ prop C05
+//@ check bounds
+//@ ensures len(s.Message) <= 255 ==> len(result) == 11 + len(s.Message) && be64(result, 0) == s.RequestID && be16(result, 8) == s.ErrorCode && result[10] == len(s.Message) && forall i in 0..len(s.Message): result[11 + i] == s.Message[i]
+
+//@ func (*StreamReset).Encode
+//@ prop C05
+//@ check bounds
+//@ ensures len(result) == 2 && be16(result, 0) == s.ErrorCode
+
+//@ func (*Keepalive).Encode
+//@ prop C05
+//@ check bounds
+//@ ensures len(result) == 8 && be64(result, 0) == k.Timestamp
+
+//@ func (*Route).Encode
+//@ prop C05
+//@ check bounds
+
+//@ func (*ControlRequest).Encode
+//@ prop C05
+//@ check bounds
+//@ requires len(c.Path) <= 255
+
+//@ func (*ControlResponse).Encode
+//@ prop C05
+//@ check bounds
+
+//@ func (*UDPOpen).Encode
+//@ prop C05
+//@ check bounds
+//@ requires len(u.RemainingPath) <= 255
+
+//@ func (*UDPOpenAck).Encode
+//@ prop C05
+//@ check bounds
+
+//@ func (*UDPOpenErr).Encode
+//@ prop C05
+//@ check bounds
+
+//@ func (*UDPDatagram).Encode
+//@ prop C05
+//@ check bounds
+
+//@ func (*UDPClose).Encode
+//@ prop C05
+//@ check bounds
+
+//@ func (*ICMPOpen).Encode
+//@ prop C05
+//@ check bounds
+//@ requires len(i.RemainingPath) <= 255
+
+//@ func (*ICMPOpenAck).Encode
+//@ prop C05
+//@ check bounds
+
+//@ func (*ICMPOpenErr).Encode
+//@ prop C05
+//@ check bounds
+
+//@ func (*ICMPEcho).Encode
+//@ prop C05
+//@ check bounds
+
+//@ func (*ICMPClose).Encode
+//@ prop C05
+//@ check bounds
+
+//@ func (*SleepCommand).Encode
+//@ prop C05
+//@ check bounds
+//@ requires len(s.SeenBy) <= 255
+
+//@ func (*WakeCommand).Encode
+//@ prop C05
+//@ check bounds
+//@ requires len(w.SeenBy) <= 255
+
+//@ func EncodeDomainPrefix
+//@ prop C05
+//@ check bounds
+
+//@ func EncodeForwardKey
+//@ prop C05
+//@ check bounds
+
+//@ func EncodeForwardKeyWithTarget
+//@ prop C05
+//@ check bounds
+
+//@ func EncodeAgentPrefix
+//@ prop C05
+//@ check bounds
+
+//@ func EncodeEncryptedData
+//@ prop C05
+//@ check bounds
+
+//@ func EncodePath
+//@ prop C05
+//@ check bounds
+//@ requires len(path) <= 255
+
+// ---- C05: round trips (lemmas over the encoder and decoder contracts; zz_verif_lemmas.go) ----
+
+//@ func zzRoundTripKeepalive
+//@ prop C05
+//@ ensures err == nil && result.Timestamp == k.Timestamp
+
+//@ func zzRoundTripStreamReset
+//@ prop C05
+//@ ensures err == nil && result.ErrorCode == s.ErrorCode
+
+//@ func zzRoundTripStreamOpenErr
+//@ prop C05
+//@ requires len(s.Message) <= 255
+//@ ensures err == nil && result.RequestID == s.RequestID && result.ErrorCode == s.ErrorCode && len(result.Message) == len(s.Message)
+//@ ensures forall i in 0..len(s.Message): result.Message[i] == s.Message[i]
+
+//@ func zzRoundTripStreamOpenAck
+//@ prop C05
+//@ requires (s.BoundAddrType == 1 && len(s.BoundAddr) == 4) || (s.BoundAddrType == 4 && len(s.BoundAddr) == 16)
+//@ ensures err == nil && result.RequestID == s.RequestID && result.BoundAddrType == s.BoundAddrType && result.BoundPort == s.BoundPort && len(result.BoundAddr) == len(s.BoundAddr)
+//@ ensures forall i in 0..len(s.BoundAddr): result.BoundAddr[i] == s.BoundAddr[i]
+//@ ensures forall i in 0..32: result.EphemeralPubKey[i] == s.EphemeralPubKey[i]
